@@ -1712,6 +1712,7 @@ func evcWorker(tier string, seed int64, race bool, reportPath string) *evcCol {
 	col.count("hook hits ConnWritePartial", int64(atomic.LoadUint64(&verifHookHits[vpConnWritePartial])))
 	col.count("hook hits ConnRead", int64(atomic.LoadUint64(&verifHookHits[vpConnRead])))
 	col.flush("", true)
+	_ = os.RemoveAll(sockDir())
 	return col
 }
 
